@@ -49,18 +49,12 @@ def _const_defs(body, op, depth=0):
     return out
 
 
-def r1(ctx):
-    f = ctx.facts
-    al = f.aliases.get("store::fs::tables::RecordsId")
-    if not al:
-        raise mir.AnchorMissing("type alias store::fs::tables::RecordsId not found")
-    shape = tables.norm(al["ty"])
-    ctx.check(shape == "(&[u8; 32], &[u8; 32], &[u8])", "C08.R1", "store::fs::tables::RecordsId", "key-shape", "records key type = %s" % shape, None)
-    # ---- the id layout, evaluated (K6'): constructor, accessors, row <-> entry maps
+def id_oracle(f, L):
+    """oracle modelling a RecordIdentifier whose bytes are the opaque buffer `id` of length L (slices are named
+    id[a..b]; an out-of-range index diverges), plus the constructors of the entry types. Returns (oracle, state)."""
     from . import feval as E, coll
     from .C09 import _rng
-    RI = "sync::RecordIdentifier"
-    L = 70     # an id of 70 bytes: 32 + 32 + 6
+    state = {"inline_ctor": True}
 
     def label_args(t, names):
         """callee(param=value, ...) with the callee's own parameter names"""
@@ -110,7 +104,23 @@ def r1(ctx):
         if name == "from_bytes" and "Signature" in full:
             return E.Tok("signature(%s)" % names[0])
         return None
-    state = {"inline_ctor": True}
+    return oracle, state
+
+
+def r1(ctx):
+    f = ctx.facts
+    al = f.aliases.get("store::fs::tables::RecordsId")
+    if not al:
+        raise mir.AnchorMissing("type alias store::fs::tables::RecordsId not found")
+    shape = tables.norm(al["ty"])
+    ctx.check(shape == "(&[u8; 32], &[u8; 32], &[u8])", "C08.R1", "store::fs::tables::RecordsId", "key-shape", "records key type = %s" % shape, None)
+    # ---- the id layout, evaluated (K6'): constructor, accessors, row <-> entry maps
+    from . import feval as E, coll
+    from .C09 import _rng
+    RI = "sync::RecordIdentifier"
+    L = 70     # an id of 70 bytes: 32 + 32 + 6
+    oracle, state = id_oracle(f, L)
+
     n = f.body(RI + "::new")
     ctx.touch(n)
     try:
@@ -372,11 +382,12 @@ def r3(ctx):
 
 def r4(ctx):
     sub = type(ctx)(ctx.prop, ctx.tier, ctx.facts, ctx.cfg)
+    C02.r2(sub)
     C02.r3(sub)
     C02.r4(sub)
     for o in sub.obligations:
         o = dict(o)
-        o["key"] = o["key"].replace("C02.R3", "C08.R4").replace("C02.R4", "C08.R4")
+        o["key"] = o["key"].replace("C02.R2a", "C08.R4").replace("C02.R2b", "C08.R4").replace("C02.R3", "C08.R4").replace("C02.R4", "C08.R4")
         o["rule"] = "C08.R4"
         ctx.obligations.append(o)
         if o["status"] != "holds":
